@@ -121,7 +121,7 @@ def show(t, depth=0):
         return "clone(%s)" % show(t[1], depth + 1)
     if k == "agg":
         return "%s::%s{%s}" % (t[1].split("::")[-1], t[2], ", ".join("%s: %s" % (n, show(v, depth + 1)) for n, v in t[3]))
-    if k in ("tuple", "array"):
+    if k in ("tuple", "array", "vec"):
         return "(%s)" % ", ".join(show(x, depth + 1) for x in t[1])
     if k == "closure":
         return "closure:%s" % t[1]
@@ -138,7 +138,7 @@ def show(t, depth=0):
     return str(t)
 
 
-_KINDS = {"param", "undef", "const", "static", "field", "index", "call", "clone", "agg", "tuple", "array",
+_KINDS = {"param", "undef", "const", "static", "field", "index", "call", "clone", "agg", "tuple", "array", "vec",
           "closure", "binop", "unop", "cast", "discr", "try", "fn"}
 
 
@@ -438,6 +438,13 @@ class Walker:
                     st = t["callee"].get("self_ty") or ""
                     okv = ("Some", "None") if "Option<" in st else ("Ok", "Err")
                     res = ("try", args[0], okv)
+                elif (name.endswith("box_assume_init_into_vec_unsafe") or name.endswith("::into_vec")) and args:
+                    # `vec![a, b, ..]`: the array literal written into the fresh box is the vector's content
+                    res = ("call", name, args, site)
+                    a0 = strip(args[0])
+                    for k2, v2 in mem.items():
+                        if isinstance(v2, tuple) and v2 and v2[0] == "array" and mentions(k2, lambda t: t == a0):
+                            res = ("vec", v2[1])
                 else:
                     res = ("call", name, args, site)
                 ev["result"] = res
